@@ -22,7 +22,8 @@ SCENARIOS = [
     ('idm', r'HeartBeater_dtor|GetHeartBeater', r'exit-order|heartbeat|flag', 'id-exit-order', 1),
     ('epoch', r'CreateEpochGuard|Forward|Collect', r'C04|heartbeat|pinned|tracked', 'epoch-id-reuse', 1),
     ('epoch', r'GetProtectedEpochs|EnterEpoch', r'C17|node|list', 'enter-epoch-stall', 4),
-    ('mcs', r'LockX|LockSIX', r'G\.node|plain-store|link', 'mcs-lost-link', 4),
+    ('mcs', r'LockX|LockSIX', r'G\.node|G\.link|link', 'mcs-lost-link', 4),
+    ('mcs', r'Unlock|Guard', r'recycle|life\.|C12', 'mcs-node-leak', 4),
 ]
 
 
